@@ -105,17 +105,17 @@ class FakeMongo:
     def find_one(self, uid):
         for d in self.docs:
             if self._match(d, uid):
-                return copy.deepcopy(d)
+                return tree_copy(d)
         return None
 
     def replace_one(self, uid, doc, upsert=False):
         self.writes += 1
         for i, d in enumerate(self.docs):
             if self._match(d, uid):
-                self.docs[i] = copy.deepcopy(doc)
+                self.docs[i] = tree_copy(doc)
                 return
         if upsert:
-            self.docs.append(copy.deepcopy(doc))
+            self.docs.append(tree_copy(doc))
 
 
 class FakeDataset:
@@ -124,10 +124,10 @@ class FakeDataset:
         self.writes = 0
 
     def __getitem__(self, i):
-        return copy.deepcopy(self.v[i])
+        return tree_copy(self.v[i])
 
     def __setitem__(self, i, val):
-        self.v[i] = copy.deepcopy(val)
+        self.v[i] = tree_copy(val)
         self.writes += 1
 
 
@@ -143,6 +143,16 @@ class FakeGroup:
         self.writes += 1
         self.ds[name] = FakeDataset()
         return self.ds[name]
+
+
+def tree_copy(v):
+    """A structural copy without any sharing between positions (what a codec round trip yields; copy.deepcopy would keep
+    one object referenced from two positions shared)."""
+    if isinstance(v, dict):
+        return {k: tree_copy(x) for k, x in v.items()}
+    if isinstance(v, (list, tuple)):
+        return [tree_copy(x) for x in v]
+    return copy.deepcopy(v)
 
 
 class Store:
@@ -185,10 +195,10 @@ class Store:
         if self.family == "mongo":
             for d in self.client.docs:
                 if d.get("_verif_id") == self.name:
-                    return copy.deepcopy(d["data"])
+                    return tree_copy(d["data"])
             return MISSING
         ds = self.client.ds.get(self.name)
-        return MISSING if ds is None else copy.deepcopy(ds.v[0])
+        return MISSING if ds is None else tree_copy(ds.v[0])
 
     def write(self, value, stealth=False):
         """Out-of-band write.  stealth: keep the file's size and timestamps exactly (another content of the same length)."""
@@ -209,14 +219,14 @@ class Store:
         elif self.family == "redis":
             self.client.kv[self.name] = json.dumps(value).encode()
         elif self.family == "mongo":
-            doc = {"_verif_id": self.name, "data": copy.deepcopy(value)}
+            doc = {"_verif_id": self.name, "data": tree_copy(value)}
             for i, d in enumerate(self.client.docs):
                 if d.get("_verif_id") == self.name:
                     self.client.docs[i] = doc
                     return
             self.client.docs.append(doc)
         else:
-            self.client.ds.setdefault(self.name, FakeDataset()).v[0] = copy.deepcopy(value)
+            self.client.ds.setdefault(self.name, FakeDataset()).v[0] = tree_copy(value)
 
     def remove(self):
         """Out-of-band removal."""
